@@ -129,6 +129,10 @@ class PlanSuite:
                     "vmax": {"shape": "scalar", "v": "1000"}, "min_transfer": mt_}
             for dev in ("evo", "fluent"):
                 cases.append(dict(deep, k="towl", dev=dev, deep=True, exec=exec_params(random.Random(e_), R_, C_, big=True)))
+        for extra in LATE_LARGE:
+            cases.append(dict(extra, k="plan"))
+            for dev in ("evo", "fluent"):
+                cases.append(dict(extra, k="towl", dev=dev, exec=exec_params(random.Random(5), extra["R"], extra["C"], big=True)))
         cases += self.bad_requests()
         return cases
 
@@ -448,6 +452,13 @@ def frac_float(x):
     return frac_str(Fraction(float(x)))
 
 
+# per-column vmax where a late column is much larger than the earlier ones (the stock-fed columns need not be a prefix ...)
+LATE_LARGE = [
+    {"xmin": "1/8", "xmax": "10", "R": 2, "C": 3, "stock": "100", "mode": "log", "vmax": {"shape": "list", "v": ["100", "100", "2000"]}, "min_transfer": "2"},
+    {"xmin": "1/8", "xmax": "10", "R": 2, "C": 4, "stock": "100", "mode": "log", "vmax": {"shape": "list", "v": ["200", "100", "100", "2000"]}, "min_transfer": "2"},
+    {"xmin": "1/16", "xmax": "8", "R": 1, "C": 4, "stock": "64", "mode": "log", "vmax": {"shape": "list", "v": ["100", "50", "50", "4000"]}, "min_transfer": "4"},
+    {"xmin": "1/4", "xmax": "16", "R": 3, "C": 3, "stock": "128", "mode": "linear", "vmax": {"shape": "list", "v": ["150", "100", "3000"]}, "min_transfer": "3"},
+]
 KNOWN_PARAMS = [
     {"xmin": frac_float(Fraction("6.1")), "xmax": frac_float(Fraction("6.4")), "R": 2, "C": 2, "stock": "10", "mode": "linear",
      "vmax": {"shape": "list", "v": ["10", "5"]}, "min_transfer": "4"},
